@@ -23,3 +23,21 @@ def run(*activities, seconds=20, **kw):
     finally:
         signal.alarm(0)
         signal.signal(signal.SIGALRM, old)
+
+
+import contextlib
+
+
+@contextlib.contextmanager
+def quiet_heap():
+    """for the families that install a stand-in loop: collect the garbage of everything that ran before (its finalisers may
+    call `schedule` on whatever loop is current) and keep the cyclic collector off while the stand-in loop is installed"""
+    import gc
+    gc.collect()
+    was = gc.isenabled()
+    gc.disable()
+    try:
+        yield
+    finally:
+        if was:
+            gc.enable()
